@@ -103,6 +103,10 @@ for d in sorted(glob.glob(os.path.join(V, 'refactors', '*'))):
     res = 'ALARM: ' + '; '.join(re.findall(r'ALARM ([^\n]*)', ev)) if 'ALARM' in ev else ('all checks quiet' if 'done' in ev else 'not evaluated')
     L.append('| %s | %s | %s |' % (name, re.sub(r'\s+', ' ', str(m.get('summary', ''))).replace('|', '/')[:300], res))
 L.append('')
-out = rd('tools/design_head.md') + '\n' + sec5 + '\n' + rd('tools/design_tail.md') + '\n' + '\n'.join(L) + '\n---------------------------------------------------------------------------\n\n' + rd('tools/design_appendices.md')
+import sys
+sys.path.insert(0, os.path.join(V, 'harness'))
+import pytrans
+NF = str(len(pytrans.FUNCS))
+out = rd('tools/design_head.md').replace('@@NFUNCS@@', NF) + '\n' + sec5 + '\n' + rd('tools/design_tail.md') + '\n' + '\n'.join(L) + '\n---------------------------------------------------------------------------\n\n' + rd('tools/design_appendices.md')
 open(os.path.join(V, 'DESIGN.md'), 'w', encoding='utf-8').write(out)
 print('DESIGN.md written: %d lines' % out.count('\n'))
